@@ -221,6 +221,40 @@ def correspond(ctx):
         distinct.add(('hist', tuple(seq)))
     solvers.options.clear(); solvers.options['show_progress'] = False
 
+    # (c') start points kept by the caller: F() returns the SAME matrix object on every call; badly scaled log-sum-exp objectives force the
+    # relaxed line search of cpl to save (and sometimes restore) its state.  The start point must come back unchanged and a repeated call must
+    # be bit-identical to the first one and to a call with a private copy of the start point.
+    from cvxopt import matrix as _mx, spdiag as _spdiag, exp as _exp
+    def lse_F(A_, b_, x0_):
+        def F(x=None, z=None):
+            if x is None: return 0, x0_
+            y = A_ * x + b_; ymax = max(y); e = _exp(y - ymax); s_ = sum(e); g = e / s_
+            f = ymax + math.log(s_); Df = (A_.T * g).T
+            if z is None: return _mx(f), Df
+            return _mx(f), Df, z[0] * (A_.T * _spdiag(g) * A_ - A_.T * g * g.T * A_)
+        return F
+    nkeep = 6 if ctx.quick() else 120
+    for it in range(nkeep):
+        n_ = 3; m_ = 6
+        scale = rng.choice([1.0, 6.0, 12.0])
+        A_ = _mx([rng.uniform(-scale, scale) for _ in range(m_ * n_)], (m_, n_)); b_ = _mx([rng.uniform(-0.5, 0.5) for _ in range(m_)])
+        G_ = _mx(0.0, (2 * n_, n_))
+        for i_ in range(n_): G_[i_, i_] = 1.0; G_[n_ + i_, i_] = -1.0
+        h_ = _mx(5.0, (2 * n_, 1))
+        x0_ = _mx([rng.choice([3.0, -2.0, 1.0]) for _ in range(n_)]); keep = list(x0_)
+        try:
+            refr = quiet(solvers.cp, lse_F(A_, b_, _mx(keep)), G_, h_, options={'show_progress': False})
+            Fk = lse_F(A_, b_, x0_)
+            r1 = quiet(solvers.cp, Fk, G_, h_, options={'show_progress': False}); after1 = list(x0_)
+            r2 = quiet(solvers.cp, Fk, G_, h_, options={'show_progress': False})
+        except (ValueError, ArithmeticError): continue
+        evals += 3
+        casek = {'entry': 'cp', 'A': list(A_), 'b': list(b_), 'x0': keep}
+        if after1 != keep or list(x0_) != keep:
+            ctx.violation('c09:start-point-modified:cp', 'cp overwrote the start point object returned by F(): %r -> %r' % (keep, after1), casek)
+        elif image(r1) != image(r2) or image(r1) != image(refr):
+            ctx.violation('c09:history-dependent:cp', 'cp with a start point kept by the caller: a repeated call differs from the first one', casek)
+
     # (e) threads -------------------------------------------------------------
     rounds = 5 if ctx.quick() else 100
     bad_threads = 0
